@@ -749,15 +749,15 @@ pub fn format_code(
 			// Trailing zeros may be stripped, so zero padding is applied after rendering
 			let zero_padding = usize::from(padding);
 			let padding = 0;
-			let exponent = if value == 0.0 {
-				0.0
-			} else {
-				value.abs().log10().floor()
-			};
-			if exponent < -4.0 || exponent >= f64::from(fpprec) {
-				render_float_sci(
+			// As in C and Python, the form depends on the exponent of the value
+			// rounded to `fpprec` significant digits
+			let (mantissa, exponent) = float_sci_digits(value, fpprec - 1);
+			if exponent < -4 || exponent >= i32::from(fpprec) {
+				render_sci_digits(
 					&mut tmp_out,
-					value,
+					value < 0.0,
+					&mantissa,
+					exponent,
 					padding,
 					fpprec - 1,
 					clfags.blank,
@@ -767,7 +767,7 @@ pub fn format_code(
 					code.caps,
 				);
 			} else {
-				let digits_before_pt = 1.max(exponent as u16 + 1);
+				let digits_before_pt = u16::try_from(exponent).map_or(1, |e| e + 1);
 				render_float(
 					&mut tmp_out,
 					value,
